@@ -64,6 +64,17 @@ func c12Gen(r *rand.Rand) []c12Op {
 		{Op: "StagePolicy"}, {Op: "ApplyPolicy"},
 		{Op: "Push"},
 	}
+	if r.IntN(4) == 0 {
+		// no policy applied yet when the random part starts: the first Apply happens
+		// somewhere inside it (possibly after policy-staging was moved without an entry)
+		ops = []c12Op{
+			{Op: "AddTopLevelTargetsKey", Signer: "r1", Key: "t1"},
+			{Op: "InitializeTargets", Signer: "t1"},
+			{Op: "AddPrincipalAndRule", Signer: "t1"},
+			{Op: "StagePolicy"},
+			{Op: []string{"TamperStagingRef", "AddGlobalRule", "StagePolicy"}[r.IntN(3)], Signer: "r1", N: 99},
+		}
+	}
 	n := 4 + r.IntN(13)
 	signers := []string{"r1", "r1", "r2", "r3", "t1", "kx"}
 	for i := 0; i < n; i++ {
@@ -135,6 +146,7 @@ func c12Run(c *fw.Ctx, ops []c12Op) {
 	m := &c12Model{stagedRoot: map[string]bool{"r1": true}, stagedThr: 1, stagedSigs: map[string]bool{"r1": true}}
 	var mainTip githash.Hash
 	pushes := 0
+	pushedBeforePolicy := false // an entry for the branch exists that no policy precedes: full verification cannot judge it
 	applied := false
 	interesting := false
 	refsOf := func() (string, string) {
@@ -242,6 +254,9 @@ func c12Run(c *fw.Ctx, ops []c12Op) {
 				}
 				mainTip = cm
 				pushes++
+				if polBefore == strings.Repeat("0", 40) {
+					pushedBeforePolicy = true
+				}
 				_ = g.SetRef(refMain, cm)
 				if _, err := scen.RecordEntry(g, refMain, cm, "k1"); err != nil {
 					c.Inconclusive("record push")
@@ -258,6 +273,13 @@ func c12Run(c *fw.Ctx, ops []c12Op) {
 					// rewind staging to the applied policy without an entry
 					_, _ = g.Run(nil, nil, "update-ref", policy.PolicyStagingRef, polBefore)
 					m.tampered = true
+				} else if polBefore == strings.Repeat("0", 40) && stBefore != strings.Repeat("0", 40) {
+					// no policy applied yet: rewind staging by one commit without an entry
+					if parent, err := g.Run(nil, nil, "rev-parse", "--verify", "-q", stBefore+"^"); err == nil && strings.TrimSpace(parent) != "" {
+						_, _ = g.Run(nil, nil, "update-ref", policy.PolicyStagingRef, strings.TrimSpace(parent))
+						m.tampered = true
+						c.Count("tampered-staging-before-first-apply", 1)
+					}
 				}
 			case "TamperPolicyEntry":
 				if mainTip != nil && polBefore != strings.Repeat("0", 40) {
@@ -344,7 +366,10 @@ func c12Run(c *fw.Ctx, ops []c12Op) {
 					stop = true
 					return
 				}
-				if pushes > 0 {
+				if pushes > 0 && pushedBeforePolicy {
+					c.Count("branch-agreement-not-judged:entry-recorded-before-any-policy", 1)
+				}
+				if pushes > 0 && !pushedBeforePolicy {
 					if _, verr := policy.NewPolicyVerifier(g).VerifyRefFull(ctx, refMain); verr != nil {
 						c.Violation("published-policy-rejected-by-verification", map[string]string{"by": "VerifyRefFull", "error": c12ErrClass(verr)}, fmt.Sprintf("Apply succeeded, full verification of the protected branch then fails: %v", verr), cs)
 						stop = true
